@@ -683,10 +683,15 @@ class FmtStr:
         counter = 0
         parts = []
         for chunk in self.chunks:
-            if index.start < counter + chunk.width and index.stop > counter:
+            # zero-width characters are displayed in the column of the character before
+            # them: those opening a run that starts at index.stop belong to the slice
+            # (hence >=), those opening a run that starts at index.start do not
+            if index.start < counter + chunk.width and index.stop >= counter:
                 start = max(0, index.start - counter)
                 end = min(index.stop - counter, chunk.width)
-                if end - start == chunk.width:
+                if end - start == chunk.width and (
+                    index.start < counter or wcwidth(chunk.s[:1]) != 0
+                ):
                     parts.append(chunk)
                 else:
                     # a negative start means the slice began in an earlier run, so
@@ -694,7 +699,8 @@ class FmtStr:
                     s_part = width_aware_slice(
                         chunk.s, index.start - counter, index.stop - counter
                     )
-                    parts.append(Chunk(s_part, chunk.atts))
+                    if s_part:
+                        parts.append(Chunk(s_part, chunk.atts))
             counter += chunk.width
             if index.stop < counter:
                 break
